@@ -28,6 +28,8 @@ fn dispatch(case: &Sexp) -> Option<Sexp> {
         "panic-prog" | "panic-2threads" => c19::run(head, args, case),
         "exec" => lang::run_exec(args),
         "exec-value" => lang::run_exec_value(args),
+        "parse" => lang::run_parse(args, false),
+        "parse-value" => lang::run_parse(args, true),
         "typecheck" => lang::run_typecheck(args, false),
         "typecheck-value" => lang::run_typecheck(args, true),
         _ => None,
